@@ -71,7 +71,9 @@ def main():
                       seed=a.seed % 100000, label='MC_PitchObj(simulate len=10)')
     run.add_tlc(ex3)
     run.add_tlc(sim)
-    hists = [h['hist'] for h in ex3.vp] + [h['hist'] for h in sim.vp][:1500 if a.tier == 'quick' else 15000]
+    import json as _json
+    # a canonical order (TLC's workers emit in any order): the position of a history identifies it in a replay file
+    hists = sorted((h['hist'] for h in ex3.vp), key=_json.dumps) + [h['hist'] for h in sim.vp][:1500 if a.tier == 'quick' else 15000]
     if len(ex3.vp) < 1000 or len(sim.vp) < 50:
         raise MachineryError(f'unexpected number of pitch-object histories: {len(ex3.vp)} + {len(sim.vp)}')
     nobj = 0
@@ -85,7 +87,9 @@ def main():
     if a.replay_case:
         st = a.replay_case['case']['record']
         if st.get('op') == 'objstep':
-            recs = [r for r in recs if r.get('hid') == st.get('hid')]         # the whole history, re-executed on the current code
+            # the whole history - and the histories the process went through before it (state may live in the process, not in the
+            # object) - re-executed on the current code
+            recs = [r for r in recs if r.get('op') == 'objstep' and r.get('hid', 0) <= st.get('hid', -1)]
             if not recs:
                 raise MachineryError('replay: the stored history is not among the enumerated ones any more')
         else:
